@@ -44,6 +44,29 @@ def integration_gate(u):
     xv, yv = V(x), V(y)
     z = Arr.new(Vec(n + m, lambda i: z3.If(i < n, xv.f(i), yv.f(i - n)), "real"))
     flow = u.obj(INT + "flow.Flow", problem=problem, params=params, eval=ev)
+    # split_states(z) == (z[:n], z[n:]): for z = (x ; y) these are x and y themselves (pointwise equal; handing out the
+    # very arrays lets the uninterpreted products J^T(.) of the gate and of bounds_dual meet by congruence)
+    real_split = u.func(INT + "flow.Flow.split_states")
+
+    def _real_split(it, s_, zz):
+        saved = A.pop(INT + "flow.Flow.split_states")
+        try:
+            return it.call_func(real_split, [s_, zz], {}, self_obj=s_)
+        finally:
+            A[INT + "flow.Flow.split_states"] = saved
+
+    def split_states(it, s_, zz):
+        if zz is z:
+            xs, ys = _real_split(it, s_, zz)
+            kq = it.path.int("split_k")
+            it.path.index_term(kq, n)
+            it.path.index_term(kq, m)
+            it.path.prove(z3.Implies(z3.And(kq >= 0, kq < n), V(xs).f(kq) == xv.f(kq)), "split_states(z)[0]==x", kind="ensures", props=["C01"])
+            it.path.prove(z3.Implies(z3.And(kq >= 0, kq < m), V(ys).f(kq) == yv.f(kq)), "split_states(z)[1]==y", kind="ensures", props=["C01"])
+            return (x, y)
+        return _real_split(it, s_, zz)
+
+    A[INT + "flow.Flow.split_states"] = split_states
     solver = u.obj(INT + "integration_solver.IntegrationSolver", problem=problem, params=params, flow=flow, evaluator=ev, orig_problem=Opaque("user"))
     rho = u.real("rho")
     u.assume(rho > 0)
@@ -65,5 +88,7 @@ def integration_gate(u):
     u.path.index_term(j, n)
     u.path.index_term(i, m)
     u.ensure(z3.Implies(z3.And(i >= 0, i < m), ops.zabs(c.f(i)) <= tol), "Optimal=>|c_i|<=tol")
-    u.ensure(z3.Implies(z3.And(j >= 0, j < n), ops.zabs(g.f(j) + jty.f(j) + d.f(j)) <= tol), "Optimal=>|g+J^Ty+d|_j<=tol")
+    fv = V(filt)
+    u.ensure(z3.Implies(z3.And(j >= 0, j < n, fv.f(j)), ops.zabs(g.f(j) + jty.f(j) + d.f(j)) <= tol), "Optimal=>|g+J^Ty+d|_j<=tol_at_the_variables_the_filter_leaves_free")
+    u.ensure(z3.Implies(z3.And(j >= 0, j < n, z3.Not(fv.f(j))), ops.zabs(g.f(j) + jty.f(j) + d.f(j)) <= tol), "Optimal=>|g+J^Ty+d|_j<=tol_at_the_variables_the_filter_pins")
     u.cover("end")
